@@ -529,6 +529,36 @@ theorem cancelledStart_unchanged (o : Bool) (fs : FileSet) (h : classify fs = .a
   simp only [ne_eq] at hd hm
   simp [cancelledStartOps, h, newActiveOps, run, applyOps, step, FileSet.get, hd, hm]
 
+/-- when every unsealed fraction is newer than every sealed one (always, except right after a crash that interrupted a
+background seal - the open finding) the loader's order is the age order -/
+theorem loadOrder_age (fr : List (Nat × Bool)) (hs : (fr.map (·.1)).Pairwise (· < ·))
+    (h : ∀ x ∈ fr, ∀ y ∈ fr, x.2 = false → y.2 = true → x.1 < y.1) : loadOrder fr = fr.map (·.1) := by
+  unfold loadOrder
+  induction fr with
+  | nil => rfl
+  | cons x r ih =>
+    have hs' : (r.map (·.1)).Pairwise (· < ·) := (List.pairwise_cons.mp hs).2
+    have hx : ∀ y ∈ r, x.1 < y.1 := fun y hy => (List.pairwise_cons.mp hs).1 y.1 (List.mem_map.mpr ⟨y, hy, rfl⟩)
+    have ih' := ih hs' (fun a ha b hb => h a (List.mem_cons_of_mem _ ha) b (List.mem_cons_of_mem _ hb))
+    cases hx2 : x.2
+    · simp only [List.filter_cons, hx2, Bool.not_false, if_true, Bool.false_eq_true, if_false, List.map_cons, List.cons_append]
+      rw [ih']
+    · -- x is unsealed: nothing sealed can follow it
+      have hall : ∀ y ∈ r, y.2 = true := by
+        intro y hy
+        cases hy2 : y.2
+        · have := h y (List.mem_cons_of_mem _ hy) x (List.mem_cons_self) hy2 hx2
+          have := hx y hy
+          omega
+        · rfl
+      have f1 : r.filter (fun z => !z.2) = [] := by
+        apply List.filter_eq_nil_iff.mpr
+        intro y hy; simp [hall y hy]
+      have f2 : r.filter (fun z => z.2) = r := by
+        apply List.filter_eq_self.mpr
+        intro y hy; exact hall y hy
+      simp [List.filter_cons, hx2, f1, f2]
+
 theorem shrink_spec (limit : Nat) (sizes : List Nat) :
     (shrink limit sizes).1 ++ (shrink limit sizes).2 = sizes ∧
       ((shrink limit sizes).2.sum ≤ limit) ∧
